@@ -3,8 +3,8 @@ import sys
 
 from props import _cluster
 
-THEOREMS = ['XmlDiffModel.C03_different_documents_nonempty_script', 'XmlDiffModel.C03_empty_script_left_unchanged', 'XmlDiffModel.C03_empty_script_empty_text']
-PARTIAL = {'C03_equal_empty': 'proved: documents that differ as values never get an empty script (any size, every good matching and option set - corollary of the script-generation invariant), an empty script leaves the document unchanged and formats to the empty text. NOT proved: equal documents yield [] under every option combination (needs the matcher to pair counterparts under assumptions on the similarity oracle); decided per run on the equal stream.'}
+THEOREMS = ['XmlDiffModel.C03_equal_documents_empty_script', 'XmlDiffModel.C03_empty_script_iff_equal', 'XmlDiffModel.C03_different_documents_nonempty_script', 'XmlDiffModel.C03_empty_script_left_unchanged', 'XmlDiffModel.C03_empty_script_empty_text']
+PARTIAL = {'C03_oracle_and_formatters': "proved, for documents of any size and shape and every option set with 0 < F <= 1.0, in the default mode, with best_match and with fast_match: equal documents (up to attribute order and ignored attributes) get the empty script and the working copy stays the left document (C03_equal_documents_empty_script: the matcher pairs every node with its counterpart - EqMatch.lean, using the maximality of the LCS helper for fast_match - and then no generator step emits anything - EqScript.lean); different documents never get an empty script; both together: C03_empty_script_iff_equal. ASSUMED about the similarity oracle, because node_ratio's float arithmetic (SequenceMatcher ratio, sqrt) is not modelled, and checked against the real node_ratio on every equal pair of every run (unit U2eq): a node against its counterpart scores exactly 1.0 when all children are matched (SimOK); for fast_match, a node reaching F against anything on empty maps reaches F against its counterpart (FastOK). NOT proved: that the 'xml' formatter returns the document without markup for an empty script (decided per run by C08-C10 machinery and the C14 oracle); namespaced documents."}
 LEAN_MODULES = ['XmlDiffModel.Props.C01', 'XmlDiffModel.Props.C03']
 SOURCES = ['diff.Differ.match', 'diff.Differ.diff', 'diff.Differ.node_ratio', 'diff.Differ.leaf_ratio', 'diff.Differ.child_ratio', 'diff.Differ.node_text']
 RULE = "Differ cluster, streams 'equal' (a document against its copy, incl. many identical siblings / repeated subtrees / duplicate unique-attribute values, all option combinations) and 'main' (different documents): oracle = script empty iff documents equal under the property's equality. Non-trivial = document with >= 2 identical siblings or script with >= 2 action types; distinct by (L, R, options)."
@@ -12,4 +12,4 @@ ASSUMPTIONS = [
     "documents of the namespace-free C01 domain (elements, attributes, text, tails, comments); namespaced documents are exercised by the oracle streams only",
     "similarity values (difflib.SequenceMatcher, sqrt) are an oracle recorded from the real node_ratio for every comparable pair",
 ]
-_cluster.make(sys.modules[__name__], 'C03', {'U4','U5','E2E'}, [('equal',2500),('main',1500)], [('equal',40000),('main',30000),('ignored',10000)])
+_cluster.make(sys.modules[__name__], 'C03', {'U4','U5','E2E','U2eq'}, [('equal',2500),('main',1500)], [('equal',40000),('main',30000),('ignored',10000)])
